@@ -293,8 +293,11 @@ type c15Plan struct {
 	Cfg    verifsim.Config `json:"cfg"`
 	Nodes  int             `json:"nodes"`
 	Phases [][]c15Op       `json:"phases"`
-	Faults [][2]any        `json:"faults,omitempty"` // enumerated crash: [[kv index of the last phase's first operation, alt]]
+	NoLoad []bool          `json:"no_load,omitempty"` // per phase: no node loads configurations after it (the next phase meets the state as it was left)
+	Faults [][2]any        `json:"faults,omitempty"`  // enumerated crash: [[kv index of the last phase's first operation, alt]]
 	Dry    bool            `json:"dry,omitempty"`
+	// CrashPhase is the phase whose first operation the enumerated crash points address (enumerated plans)
+	CrashPhase int `json:"crash_phase,omitempty"`
 }
 
 var c15DBs = []string{"db1", "db2", "db3"}
@@ -352,7 +355,7 @@ func c15CfgFor(faults [][2]any) verifsim.Config {
 // c15Enumerate: seeded prefixes of completed changes, then one operation whose every storage step is a crash point.
 func c15Enumerate(seed uint64, tier string) []json.RawMessage {
 	r := verifsim.NewRNG(seed).Fork("enum")
-	prefixes, maxIdx := 14, 16
+	prefixes, maxIdx := 24, 16
 	if tier == "thorough" {
 		prefixes, maxIdx = 300, 24
 	}
@@ -365,11 +368,36 @@ func c15Enumerate(seed uint64, tier string) []json.RawMessage {
 		last := c15GenOp(r, 2)
 		last.Node = 0
 		phases = append(phases, []c15Op{last})
-		out = append(out, mustJSON(c15Plan{Nodes: 2, Phases: phases, Dry: true, Cfg: c15CfgFor(nil)}))
+		crashPhase := len(phases) - 1
+		var noLoad []bool
+		if pi%2 == 1 {
+			// the other node changes something right after the interrupted operation, before anybody loaded (and so
+			// repaired) the state it left: it claims the collections the interrupted operation had or wanted
+			follow := c15GenOp(r, 2)
+			follow.Node = 1
+			if follow.Kind == "delete" {
+				follow.Kind = "create"
+			}
+			follow.Colls = append([]string{}, last.Colls...)
+			if len(follow.Colls) == 0 || r.Chance(500) {
+				follow.Colls = []string{c15Colls[r.Intn(len(c15Colls))]}
+			}
+			if r.Chance(700) {
+				for _, d := range c15DBs {
+					if d != last.DB {
+						follow.DB = d
+					}
+				}
+			}
+			phases = append(phases, []c15Op{follow})
+			noLoad = make([]bool, len(phases))
+			noLoad[crashPhase] = true
+		}
+		out = append(out, mustJSON(c15Plan{Nodes: 2, Phases: phases, NoLoad: noLoad, CrashPhase: crashPhase, Dry: true, Cfg: c15CfgFor(nil)}))
 		for i := 0; i < maxIdx; i++ {
 			for _, alt := range []string{c15CrashPre, c15CrashAfter} {
 				f := [][2]any{{i, alt}}
-				out = append(out, mustJSON(c15Plan{Nodes: 2, Phases: phases, Faults: f, Cfg: c15CfgFor(f)}))
+				out = append(out, mustJSON(c15Plan{Nodes: 2, Phases: phases, NoLoad: noLoad, CrashPhase: crashPhase, Faults: f, Cfg: c15CfgFor(f)}))
 			}
 		}
 	}
@@ -399,6 +427,7 @@ func c15Generate(seed uint64, tier string, index int) json.RawMessage {
 			phase = append(phase, op)
 		}
 		p.Phases = append(p.Phases, phase)
+		p.NoLoad = append(p.NoLoad, r.Chance(400))
 	}
 	if index%2 == 1 {
 		p.Cfg.MaxFaults = r.Range(1, 2)
@@ -614,6 +643,8 @@ func c15Run(env *verifsim.Env, raw json.RawMessage) *verifsim.Violation {
 		return nil
 	}
 
+	crashedUpdate := map[string]bool{}
+	var pendingOuts []outcome
 	for pi, phase := range p.Phases {
 		lastPhase := pi == len(p.Phases)-1
 		before := st.snapshot()
@@ -621,14 +652,15 @@ func c15Run(env *verifsim.Env, raw json.RawMessage) *verifsim.Violation {
 		for oi, op := range phase {
 			oi, op := oi, op
 			name := fmt.Sprintf("p%d.%d", pi, oi)
-			if lastPhase && oi == 0 {
+			enumerated := len(p.Faults) > 0 || p.Dry
+			if enumerated && pi == p.CrashPhase && oi == 0 {
 				name = "x" // the enumerated crash points address this task's storage steps
 			}
 			if !lastPhase || len(p.Faults) == 0 {
 				// crashes of the seeded runs may land anywhere; enumerated runs crash only the last operation
 			}
-			if len(p.Faults) > 0 || p.Dry {
-				nodes[op.Node].conn.noCrash = !(lastPhase && oi == 0)
+			if enumerated {
+				nodes[op.Node].conn.noCrash = !(pi == p.CrashPhase && oi == 0)
 			}
 			s.Spawn(name, fmt.Sprintf("n%d", op.Node), func(t *verifsim.Task) { outs[oi] = runOp(t, op) })
 		}
@@ -665,9 +697,19 @@ func c15Run(env *verifsim.Env, raw json.RawMessage) *verifsim.Violation {
 		if !alive {
 			nodes[0] = mkNode(0, nodes[0].gen+1)
 		}
-		if v := judge(fmt.Sprintf("after phase %d", pi), outs); v != nil {
+		for _, o := range outs {
+			if o.crashed && o.op.Kind == "update" {
+				crashedUpdate[o.op.DB] = true
+			}
+		}
+		pendingOuts = append(pendingOuts, outs...)
+		if pi < len(p.NoLoad) && p.NoLoad[pi] && !lastPhase {
+			continue
+		}
+		if v := judge(fmt.Sprintf("after phase %d", pi), pendingOuts); v != nil {
 			return v
 		}
+		pendingOuts = nil
 	}
 	// after whatever happened, the same and other databases can still be changed (bounded liveness)
 	live := 0
@@ -676,7 +718,7 @@ func c15Run(env *verifsim.Env, raw json.RawMessage) *verifsim.Violation {
 			live = i
 		}
 	}
-	for _, db := range c15DBs {
+	for liveRound, db := range append(append([]string{}, c15DBs...), c15DBs...) {
 		var lastErr error
 		ok := false
 		var final outcome
@@ -694,10 +736,14 @@ func c15Run(env *verifsim.Env, raw json.RawMessage) *verifsim.Violation {
 					}
 				}
 			}
+			var free []string
 			for _, c := range c15Colls {
-				if !used[c] && len(op.Colls) < 1 {
-					op.Colls = append(op.Colls, c)
+				if !used[c] {
+					free = append(free, c)
 				}
+			}
+			if len(free) > 0 {
+				op.Colls = []string{free[(attempt+liveRound)%len(free)]}
 			}
 			if len(op.Colls) == 0 {
 				ok = true // no free collection: nothing to demand
@@ -705,7 +751,7 @@ func c15Run(env *verifsim.Env, raw json.RawMessage) *verifsim.Violation {
 			}
 			var out outcome
 			nodes[live].conn.noCrash = true
-			s.Spawn(fmt.Sprintf("live.%s.%d", db, attempt), "n", func(t *verifsim.Task) { out = runOp(t, op) })
+			s.Spawn(fmt.Sprintf("live%d.%s.%d", liveRound, db, attempt), "n", func(t *verifsim.Task) { out = runOp(t, op) })
 			if err := s.DriveAll(); err != nil {
 				return infraOrBudget(err)
 			}
@@ -731,7 +777,7 @@ func c15Run(env *verifsim.Env, raw json.RawMessage) *verifsim.Violation {
 						continue
 					}
 					var cfg DatabaseConfig
-					if rawCfg, ok := snap[PersistentConfigKey(ctx, c15Group, name)]; ok && base.JSONUnmarshal([]byte(rawCfg), &cfg) == nil && cfg.Version == rdb.Version {
+					if rawCfg, ok := snap[PersistentConfigKey(ctx, c15Group, name)]; ok && base.JSONUnmarshal([]byte(rawCfg), &cfg) == nil && cfg.Version == rdb.Version && crashedUpdate[name] {
 						v.Key = "previous-version-left-by-crash-before-finalize"
 					}
 				}
